@@ -116,6 +116,9 @@ func (w *World) applyBind(b Bind, hdr http.Header, method, path string) {
 	w.curCert = nil
 	if b.Dpop != nil {
 		hdr.Set("DPoP", w.dpopJWS(b.Dpop, method, path))
+		if b.Twice {
+			hdr.Add("DPoP", w.dpopJWS(b.Dpop, method, path))
+		}
 	}
 	if b.Cert != 0 {
 		if c := w.certByHandle(b.Cert); c != nil {
@@ -355,6 +358,11 @@ func (w *World) ExecWith(o Op) Obs {
 		tok := w.ptokString(o.Tok)
 		if o.HasHeader {
 			hdr.Set("Authorization", "Bearer "+tok)
+		}
+		if o.Post {
+			w.applyBind(o.Bind, hdr, "POST", pfx+"/userinfo")
+			rec, pan := w.serve("POST", pfx+"/userinfo", url.Values{}, hdr)
+			return w.absJSON(rec, pan, "userinfo")
 		}
 		w.applyBind(o.Bind, hdr, "GET", pfx+"/userinfo")
 		rec, pan := w.serve("GET", pfx+"/userinfo", nil, hdr)
